@@ -21,7 +21,7 @@ NEWID = 900
 
 ORIG_DOCS = {1: "sq doc", 2: "dq doc", 3: "ml doc\nmore doc\n", 4: 'say "hi"', 5: "raw \\d doc"}
 NEW_DOCS = {11: "new doc one", 12: "first line\nsecond line", 13: "it's a doc",
-            14: 'new say "hi"', 15: "back\\nslash", 16: 'tri"""ple'}
+            14: 'new say "hi"', 15: "back\\nslash", 16: 'tri"""ple', 17: 'ends in """'}
 ESC_DOC = {25: "back\nslash"}
 ALL_DOCS = dict(ORIG_DOCS)
 ALL_DOCS.update(NEW_DOCS)
